@@ -28,7 +28,8 @@ CONSTANTS NCpuSet, NFSet, ClkSet,   \* import-time configurations explored
           DeltaMode,                \* "full": every vector over ActiveF x DVals on one CPU
                                     \* "pat" : the named patterns of Patterns
           DPos, DNeg,               \* DVals = DPos \cup {-x : x \in DNeg}
-          Patterns,
+          Patterns,                 \* named delta vectors of kernel advances
+          BlockPats,                \* ... of the advance inside a blocking call
           MaxAdv, MaxCalls,         \* kernel advances / calls per thread
           Objs,                     \* Process objects (same PID); {} disables the process part
           PModes,                   \* subset of {"nb", "block", "neg"}
@@ -137,15 +138,15 @@ PatV(p) == MkSeq(nf, LAMBDA f : Pat10(p)[f])
 OneCpu(c, v) == MkSeq(ncpu, LAMBDA k : IF k = c THEN v ELSE ZeroV(nf))
 AllCpu(v) == MkSeq(ncpu, LAMBDA k : v)
 
-DeltaSpace ==
+DeltaSpace(pats) ==
   IF DeltaMode = "full"
     \* every delta vector over ActiveF x DVals on the first CPU, after one
     \* initial advance of every counter (so that counters can go backwards)
     THEN IF nadv = 0 THEN {AllCpu(PatV("all"))}
          ELSE {OneCpu(1, MkSeq(nf, LAMBDA f : IF f \in ActiveF THEN v[f] ELSE 0)) :
                   v \in [ActiveF -> DVals]}
-    ELSE {OneCpu(c, PatV(p)) : c \in 1..ncpu, p \in Patterns}
-         \cup {AllCpu(PatV(p)) : p \in Patterns}
+    ELSE {OneCpu(c, PatV(p)) : c \in 1..ncpu, p \in pats}
+         \cup {AllCpu(PatV(p)) : p \in pats}
 
 UnchangedCfg == UNCHANGED <<ncpu, nf, clk>>
 UnchangedProc == UNCHANGED <<wall, ptk, plast, npcalls, nticks>>
@@ -261,13 +262,14 @@ InitRest ==
 Init == ncpu \in NCpuSet /\ nf \in NFSet /\ clk \in ClkSet /\ InitRest
 
 \* (guards hoisted so that TLC does not build DeltaSpace in vain)
-Advances == IF nadv < MaxAdv THEN DeltaSpace ELSE {}
+Advances == IF nadv < MaxAdv THEN DeltaSpace(Patterns) ELSE {}
+MidCall == IF nadv < MaxAdv THEN DeltaSpace(BlockPats) ELSE {}
 
 Next ==
   \/ \E dm \in Advances : KAdvance(dm)
   \/ \E t \in {u \in Threads : calls[u] < MaxCalls}, fn \in Fns, fm \in Forms :
         \/ "nb" \in Modes /\ Call(t, fn, fm, "nb", ZeroM)
-        \/ "block" \in Modes /\ \E dm \in Advances \cup {ZeroM} : Call(t, fn, fm, "block", dm)
+        \/ "block" \in Modes /\ \E dm \in MidCall \cup {ZeroM} : Call(t, fn, fm, "block", dm)
         \/ "neg" \in Modes /\ CallNeg(t, fn, fm)
   \/ "times" \in Modes /\ \E fm \in Forms : Times(fm)
   \/ \E o \in Objs :
